@@ -40,9 +40,11 @@ type context struct {
 	store     *py.ModuleStore
 	opts      py.ContextOpts
 	closeOnce sync.Once
+	mu        sync.Mutex // guards closing, closed and running
+	idle      *sync.Cond // signalled (under mu) when running drops to zero
 	closing   bool
 	closed    bool
-	running   sync.WaitGroup
+	running   int // number of admitted executions that have not finished
 	done      chan struct{}
 }
 
@@ -56,6 +58,7 @@ func NewContext(opts py.ContextOpts) py.Context {
 		closing: false,
 		closed:  false,
 	}
+	ctx.idle = sync.NewCond(&ctx.mu)
 
 	ctx.store = py.NewModuleStore()
 
@@ -106,10 +109,10 @@ func implCode(impl *py.ModuleImpl) (*py.Code, error) {
 // ModuleInit digests a ModuleImpl, compiling and marshalling as needed, creating a new Module instance in this Context.
 func (ctx *context) ModuleInit(impl *py.ModuleImpl) (*py.Module, error) {
 	err := ctx.pushBusy()
-	defer ctx.popBusy()
 	if err != nil {
 		return nil, err
 	}
+	defer ctx.popBusy()
 
 	code, err := implCode(impl)
 	if err != nil {
@@ -134,10 +137,10 @@ func (ctx *context) ModuleInit(impl *py.ModuleImpl) (*py.Module, error) {
 // See interface py.Context defined in py/run.go
 func (ctx *context) ResolveAndCompile(pathname string, opts py.CompileOpts) (py.CompileOut, error) {
 	err := ctx.pushBusy()
-	defer ctx.popBusy()
 	if err != nil {
 		return py.CompileOut{}, err
 	}
+	defer ctx.popBusy()
 
 	tryPaths := defaultPaths
 	if opts.UseSysPaths {
@@ -218,24 +221,38 @@ func (ctx *context) ResolveAndCompile(pathname string, opts py.CompileOpts) (py.
 	return out, nil
 }
 
+// pushBusy admits one execution, or refuses with an error once the context is closed.
+// Every successful pushBusy must be paired with exactly one popBusy.
 func (ctx *context) pushBusy() error {
+	ctx.mu.Lock()
 	if ctx.closed {
+		ctx.mu.Unlock()
 		return py.ExceptionNewf(py.RuntimeError, "Context closed")
 	}
-	ctx.running.Add(1)
+	ctx.running++
+	ctx.mu.Unlock()
 	return nil
 }
 
 func (ctx *context) popBusy() {
-	ctx.running.Done()
+	ctx.mu.Lock()
+	ctx.running--
+	if ctx.running == 0 {
+		ctx.idle.Broadcast()
+	}
+	ctx.mu.Unlock()
 }
 
 // See interface py.Context defined in py/run.go
 func (ctx *context) Close() error {
 	ctx.closeOnce.Do(func() {
+		ctx.mu.Lock()
 		ctx.closing = true
-		ctx.running.Wait()
+		for ctx.running > 0 {
+			ctx.idle.Wait()
+		}
 		ctx.closed = true
+		ctx.mu.Unlock()
 
 		// Give each module a chance to release resources
 		ctx.store.OnContextClosed()
@@ -309,10 +326,10 @@ func resolveRunPath(runPath string, opts py.CompileOpts, pathObjs []py.Object, t
 // See interface py.Context defined in py/run.go
 func (ctx *context) RunCode(code *py.Code, globals, locals py.StringDict, closure py.Tuple) (py.Object, error) {
 	err := ctx.pushBusy()
-	defer ctx.popBusy()
 	if err != nil {
 		return nil, err
 	}
+	defer ctx.popBusy()
 
 	return vm.EvalCode(ctx, code, globals, locals, nil, nil, nil, nil, closure)
 }
